@@ -290,10 +290,17 @@ def gibbs_duhem_pairing(ctx, d6):
     pos = 2          # x, chemgroups, loggammacs
     names = set()
     for f in m.functions.values():
+        ldefs = {}
         for n in walk_no_nested(f.node):
-            if isinstance(n, ast.Call) and src(n.func) == 'group_activity_coefficients' and len(n.args) > pos \
-                    and isinstance(n.args[pos], ast.Call) and isinstance(n.args[pos].func, ast.Name):
-                names.add(n.args[pos].func.id)
+            if isinstance(n, ast.Assign) and len(n.targets) == 1 and isinstance(n.targets[0], ast.Name):
+                ldefs.setdefault(n.targets[0].id, []).append(n.value)
+        for n in walk_no_nested(f.node):
+            if isinstance(n, ast.Call) and src(n.func) == 'group_activity_coefficients' and len(n.args) > pos:
+                a = n.args[pos]
+                if isinstance(a, ast.Name) and len(ldefs.get(a.id, [])) == 1:
+                    a = ldefs[a.id][0]          # the argument computed into a local first
+                if isinstance(a, ast.Call) and isinstance(a.func, ast.Name):
+                    names.add(a.func.id)
     if len(names) < 2:
         raise AnalysisError('combinatorial functions not found: %s' % sorted(names))
     for name in sorted(names):
